@@ -59,6 +59,8 @@ type stubBinding struct {
 	index  int // -1 for unary
 	desc   string
 	tail   string // "" | "SendMsg+CloseSend"
+	newT   string // unary stubs: the type allocated for the reply (`out := new(T)`)
+	resT   string // the declared first result type of the method
 }
 
 // extractBindings parses generated Go and extracts, per client method, what it calls.
@@ -93,10 +95,16 @@ func extractBindings(src string) (map[string][]stubBinding, []string, error) {
 		}
 		recv := exprString(fd.Recv.List[0].Type)
 		b := stubBinding{goName: fd.Name.Name, index: -1}
+		if fd.Type.Results != nil && len(fd.Type.Results.List) > 0 {
+			b.resT = exprString(fd.Type.Results.List[0].Type)
+		}
 		ast.Inspect(fd.Body, func(n ast.Node) bool {
 			call, ok := n.(*ast.CallExpr)
 			if !ok {
 				return true
+			}
+			if id, ok := call.Fun.(*ast.Ident); ok && id.Name == "new" && len(call.Args) == 1 && b.newT == "" {
+				b.newT = exprString(call.Args[0])
 			}
 			sel, ok := call.Fun.(*ast.SelectorExpr)
 			if !ok {
@@ -371,6 +379,9 @@ func suiteC19(r *Run) {
 						}
 					}
 					wantShape := map[[2]bool]string{{false, false}: "unary", {false, true}: "sstream", {true, false}: "stream", {true, true}: "stream"}[[2]bool{m.cs, m.ss}]
+					if shape == "unary" && "*"+b.newT != b.resT {
+						r.Violate("stubgen/unary-reply-type", "the output is valid Go … the call shape that matches the method", sprintf("service %s method %s: the stub allocates new(%s) for the reply but is declared to return %s", s.name, m.name, b.newT, b.resT), caseDesc, "")
+					}
 					if b.path != "/"+full+"/"+m.name || b.index != wantIdx || shape != wantShape || (wantIdx >= 0 && b.desc != wantDesc) {
 						r.Violate("stubgen/wrong-binding", "each client method calls the channel with the path \"/<full service name>/<method>\", the call shape that matches the method's streaming flags, and for streaming methods the index of that method among the service's streaming methods in declaration order",
 							sprintf("service %s (#%d) method %s (cs=%v ss=%v): path %q index %d shape %s desc %s; want path %q index %d shape %s", s.name, si, m.name, m.cs, m.ss, b.path, b.index, shape, b.desc, "/"+full+"/"+m.name, wantIdx, wantShape), caseDesc, "")
